@@ -603,6 +603,32 @@ pub fn shipped_files() -> Vec<(PathBuf, PathBuf)> {
     v
 }
 
+fn load_packages(source: &str, deps: &Path, packages: &mut Vec<(String, Option<String>, std::sync::Arc<Vec<u8>>)>) {
+    if let Ok(doc) = wac_parser::Document::parse(source) {
+        if let Ok(keys) = wac_resolver::packages(&doc) {
+            // one key at a time so that a broken dependency does not hide the others
+            for (key, span) in keys.iter() {
+                let mut one = indexmap::IndexMap::new();
+                one.insert(*key, *span);
+                let resolver = wac_resolver::FileSystemPackageResolver::new(
+                    deps.to_path_buf(),
+                    Default::default(),
+                    false,
+                );
+                if let Ok(found) = resolver.resolve(&one) {
+                    for (k, bytes) in found {
+                        packages.push((
+                            k.name.to_string(),
+                            k.version.map(|v| v.to_string()),
+                            std::sync::Arc::new(bytes),
+                        ));
+                    }
+                }
+            }
+        }
+    }
+}
+
 static SHIPPED: OnceLock<Vec<DocCase>> = OnceLock::new();
 
 /// The shipped documents with their packages pre-loaded through the real file-system resolver.
@@ -612,30 +638,13 @@ pub fn shipped_cases() -> &'static Vec<DocCase> {
         for (file, deps) in shipped_files() {
             let Ok(source) = std::fs::read_to_string(&file) else { continue };
             let source = source.replace("\r\n", "\n");
-            let mut packages = Vec::new();
-            if let Ok(doc) = wac_parser::Document::parse(&source) {
-                if let Ok(keys) = wac_resolver::packages(&doc) {
-                    // one key at a time so that a broken dependency does not hide the others
-                    for (key, span) in keys.iter() {
-                        let mut one = indexmap::IndexMap::new();
-                        one.insert(*key, *span);
-                        let resolver = wac_resolver::FileSystemPackageResolver::new(
-                            deps.clone(),
-                            Default::default(),
-                            false,
-                        );
-                        if let Ok(found) = resolver.resolve(&one) {
-                            for (k, bytes) in found {
-                                packages.push((
-                                    k.name.to_string(),
-                                    k.version.map(|v| v.to_string()),
-                                    std::sync::Arc::new(bytes),
-                                ));
-                            }
-                        }
-                    }
-                }
-            }
+            // (a panic of the code under test while loading must not take the harness down)
+            let packages = std::panic::catch_unwind(std::panic::AssertUnwindSafe(|| {
+                let mut packages = Vec::new();
+                load_packages(&source, &deps, &mut packages);
+                packages
+            }))
+            .unwrap_or_default();
             let label = file
                 .strip_prefix("/repo")
                 .unwrap_or(&file)
